@@ -211,3 +211,16 @@ prop("C02",
      level_note="Trusted: Lean kernel; hand model of the loop tied to the regenerated function by kernel-evaluated cases and the per-run differential (not by a proof about the interpreter); kernel resolution semantics as specified by `Walk` and sampled against the real kernel. Three defects repaired (fix: commits)",
      technique="Lean 4 proofs (induction over fuel / over the Walk derivation) + decide +kernel on regenerated Go-lite code + differential against the kernel's resolution and real traced runs",
      timeout={"quick": 900, "thorough": 3600})
+
+prop("C03",
+     trusted_base=["Model/Verdict.lean: `handleTrapM` (hand model of handleTrap with the runner's handler), `kernelResume` (the kernel's rule when a tracee stopped at a seccomp event is resumed: negative syscall number = skip, return register as the tracer left it), `stepOp`/`runOps` (a run as a sequence of syscalls of a process tree; auto-attach needs the PTRACE_O_TRACE{FORK,VFORK,CLONE} option of every creation on the lineage; a trapped call without tracer fails with ENOSYS)",
+                   "Go-lite runs of the regenerated handleTrap, skipSyscall, SetReturnValue, softBanSyscall, setPtraceOption (Gen.C03) with pointer-receiver write-back; compiled BanRet and PTRACE_O_* constants",
+                   "tie: random programs over fork/vfork/thread trees under the REAL ptrace runner, handler decisions drawn per call: values recorded by the program, directories created, Result.Status vs runOps"],
+     assumptions=["kernel ptrace/seccomp semantics as modelled (SECCOMP_RET_TRACE stop, skip on nr<0, option inheritance on auto-attach, RET_KILL_PROCESS = SIGSYS to the thread group)",
+                  "programs whose processes run one after the other (the parent waits/joins): program order is the order of events; concurrent siblings are exercised by C17",
+                  "the launcher stops itself before loading the filter (C04/C07 order theorems) so the tracer is attached before the first filtered syscall"],
+     not_covered="x32/i386 syscall entry; a tracee killed by an outside SIGKILL while stopped (ESRCH paths are kernel-evaluated on regenerated code only)",
+     level_text="Theorems for every program, process tree, option set and decision function: every call that took effect was allowed by the filter or by the handler in a traced process; a killed call (handler or filter) ends the run as Disallowed Syscall, does not execute and nothing after it happens; a banned call does not execute and the program sees -BanRet; an allowed call executes; with the regenerated option word every descendant is traced; after a ban the kernel skips the call for every register content, after allow the registers are untouched; the regenerated handleTrap computes the hand model (kernel-evaluated incl. vanished tracee); differential on real traced runs",
+     level_note="Trusted: Lean kernel; kernel ptrace/seccomp rules are modelled (assumed) and sampled by the real runs; hand model tied to regenerated code by kernel evaluation on a finite register sample. One defect repaired (fix: commit)",
+     technique="Lean 4 proofs by induction over programs + decide +kernel on regenerated Go-lite code + differential on real ptrace runs",
+     timeout={"quick": 900, "thorough": 3600})
